@@ -160,7 +160,12 @@ def rule_writer_chain(ctx, r_wait, r_send, r_chain):
     w_flush = method(facts, T_WRITE, SW, "flush")
     w_drop = method(facts, T_DROP, SW, "drop")
     pred_id = tx[0][0][1]
-    for m in (w_write, w_flush):
+    # every method through which a handed-out writer can reach the shared write half: all items of its Write impl (the provided methods of
+    # the trait go through these) and its inherent methods taking &mut self / &self
+    others = [g for k, g in sorted(facts.local_fns.items()) if g.rec.get("impl_self_adt") == SW and g.rec.get("impl_trait") in (T_WRITE, None)
+              and "{closure" not in k and g.id not in (w_write.id, w_flush.id) and g.argc >= 1 and g.local_ty(1).startswith("&") and SW in g.local_ty(1)]
+    for m in [w_write, w_flush] + others:
+        must_lock = m.id in (w_write.id, w_flush.id)
         for label, item, has_pred in (("first", W1, False), ("later", W2, True)):
             f, ps = C.run(m.id, item)
             ctx.touch(f, paths=len(ps))
@@ -171,7 +176,8 @@ def rule_writer_chain(ctx, r_wait, r_send, r_chain):
                 locks = [i for i, k, ch, pl in ev if k == "lock"]
                 recvs = [(i, ch) for i, k, ch, pl in ev if k == "recv"]
                 if not locks:
-                    bad.append("never locks the shared writer")
+                    if must_lock:
+                        bad.append("never locks the shared writer")
                     continue
                 if has_pred:
                     if not any(ch == pred_id and i < locks[0] for i, ch in recvs):
